@@ -85,6 +85,25 @@ def impl(case):
                         lp.append({"exc": type(e).__name__, "msg": str(e)[:200]})
                 r["logp"] = lp
             out[name] = r
+        # the rescaled parser itself (observable `earley_rescaled Earley.logp(x)`)
+        try:
+            from genlm.grammar.parse import earley_rescaled
+            Ep = earley_rescaled.Earley(common.mk_cfg(case["cfg"], "Float"))
+            lp = []
+            for x in case["xs"]:
+                if not x:
+                    lp.append(None)
+                    continue
+                try:
+                    import warnings
+                    with warnings.catch_warnings():
+                        warnings.simplefilter("ignore")
+                        lp.append(float(Ep.logp(tup(x))))
+                except Exception as e:  # noqa
+                    lp.append({"exc": type(e).__name__, "msg": str(e)[:200]})
+            out["rescaled_parser_logp"] = lp
+        except Exception as e:  # noqa
+            out["rescaled_parser_logp"] = {"exc": type(e).__name__, "msg": str(e)[:200]}
     finally:
         _uninstall_jitter()
     return out
@@ -120,7 +139,7 @@ def corpus():
 
 def run(ctx):
     rng, tier = ctx["rng"], ctx["tier"]
-    n = 60 if tier == "quick" else 1200
+    n = int((60 if tier == "quick" else 1200) * ctx.get("mult", 1))
     hashseeds = [0, 1] if tier == "quick" else [0, 1, 2, 3]
     if ctx.get("replay"):
         cases = [f["case"] for f in ctx["replay"]["failing"] if "case" in f]
@@ -243,6 +262,23 @@ def run(ctx):
                             semantic.append(_viol(c, hs, name + ".logp", x, {"impl": v, "log_weight": "-inf"}))
                         else:
                             traces += 1
+            rl = res.get("rescaled_parser_logp")
+            if isinstance(rl, dict):
+                semantic.append(_viol(c, hs, "rescaled_parser.logp", None, rl))
+            elif rl:
+                wv2, wc2, _ = xw[k]
+                for x, v, o, ok in zip(c["xs"], rl, wv2, wc2):
+                    if v is None:
+                        continue
+                    evaluations += 1
+                    if isinstance(v, dict):
+                        semantic.append(_viol(c, hs, "rescaled_parser.logp", x, v))
+                    elif ok and o > 0 and not (abs(v - math.log(float(o))) <= 1e-6 * max(1.0, abs(v))):
+                        semantic.append(_viol(c, hs, "rescaled_parser.logp", x, {"impl": v, "log_weight": math.log(float(o))}))
+                    elif ok and o == 0 and not (math.isinf(v) and v < 0):
+                        semantic.append(_viol(c, hs, "rescaled_parser.logp", x, {"impl": v, "log_weight": "-inf"}))
+                    else:
+                        traces += 1
             # all back ends agree
             names = list(per_lm)
             for a_ in names[1:]:
